@@ -9,6 +9,25 @@ mod canon;
 mod tgen;
 mod rng;
 mod c01;
+mod c02;
+mod c03;
+mod c04;
+mod c05;
+mod c06;
+mod c07;
+mod c08;
+mod c09;
+mod c10;
+mod c11;
+mod c12;
+mod c13;
+mod c14;
+mod c15;
+mod c16;
+mod c17;
+mod c18;
+mod c19;
+mod c20;
 
 use std::io::Write;
 
@@ -65,6 +84,25 @@ fn main() {
     std::panic::set_hook(Box::new(|_| {}));
     match a[1].as_str() {
         "c01" => c01::run(&mut ctx),
+        "c02" => c02::run(&mut ctx),
+        "c03" => c03::run(&mut ctx),
+        "c04" => c04::run(&mut ctx),
+        "c05" => c05::run(&mut ctx),
+        "c06" => c06::run(&mut ctx),
+        "c07" => c07::run(&mut ctx),
+        "c08" => c08::run(&mut ctx),
+        "c09" => c09::run(&mut ctx),
+        "c10" => c10::run(&mut ctx),
+        "c11" => c11::run(&mut ctx),
+        "c12" => c12::run(&mut ctx),
+        "c13" => c13::run(&mut ctx),
+        "c14" => c14::run(&mut ctx),
+        "c15" => c15::run(&mut ctx),
+        "c16" => c16::run(&mut ctx),
+        "c17" => c17::run(&mut ctx),
+        "c18" => c18::run(&mut ctx),
+        "c19" => c19::run(&mut ctx),
+        "c20" => c20::run(&mut ctx),
         d => {
             eprintln!("unknown domain {}", d);
             std::process::exit(2);
